@@ -50,6 +50,9 @@ def totals(exp, frame, col, periods_wanted):
   return dates, gen.group_totals(frame, col, 1, dates), gen.group_totals(frame, col, 2, dates)
 
 
+BASE_COLS = ['date', 'geo', 'group', 'period', 'response', 'cost']
+
+
 def make_variant(exp, r, g, kind):
   f = exp['frame']
   if kind == 'shuffle':
@@ -72,7 +75,7 @@ def make_variant(exp, r, g, kind):
     periods = exp['periods']
     for k, d in enumerate(dates):
       rows.append((d, 9001, -1, periods[k], float(g.normal(50, 5)), float(abs(g.normal(1, 0.2)))))
-    out = pd.concat([f, pd.DataFrame(rows, columns=list(f.columns))], ignore_index=True)
+    out = pd.concat([f, pd.DataFrame(rows, columns=BASE_COLS)], ignore_index=True)
     # extra dates labelled unassigned (-1) for all geos, before the pre-period
     first = min(dates)
     geos = f[['geo', 'group']].drop_duplicates()
@@ -80,7 +83,7 @@ def make_variant(exp, r, g, kind):
     for j in range(1, 3):
       for gid, grp in zip(geos['geo'], geos['group']):
         rows.append((first - pd.Timedelta(days=j), gid, grp, -1, float(g.normal(70, 5)), 0.5))
-    out = pd.concat([out, pd.DataFrame(rows, columns=list(f.columns))], ignore_index=True)
+    out = pd.concat([out, pd.DataFrame(rows, columns=BASE_COLS)], ignore_index=True)
     return out.sample(frac=1.0, random_state=r.randrange(1 << 30)).reset_index(drop=True)
   raise KeyError(kind)
 
@@ -106,6 +109,13 @@ def run_case(spec):
   def add(clause, mech, detail):
     violations.append({'clause': clause, 'mech': mech, 'detail': '%s; case %r' % (detail, desc)})
 
+  if r.random() < 0.25:
+    # an unrelated, partly missing column must not matter
+    frame = frame.copy()
+    note = np.where(np.arange(len(frame)) % 3 == 0, np.nan, 1.0)
+    frame['other_metric'] = note
+    exp = dict(exp, frame=frame)
+    counters['frames_with_nan_column'] += 1
   if r.random() < 0.3:
     fit_frame = frame.set_index('geo')
   else:
@@ -158,12 +168,13 @@ def run_case(spec):
     d1 = model.causal_cumulative_distribution(periods=(1,))
     _, x_t, y_t = totals(exp, frame, 'response', (1,))
     check_posterior(d1, tbrref.Ref(x_pre, y_pre, x_t, y_t), 'periods=(test,)', len(x_t))
-  tpos = r.randrange(0, len(x_an))
-  dt = model.causal_cumulative_distribution(time=tpos)
-  if not (util.close(float(dt.kwds['loc']), ref.loc[tpos], rtol=rt, atol=at_loc) and
-          util.close(float(dt.kwds['scale']), ref.scale[tpos], rtol=rt * 10)):
-    add('time', 'posterior-time-index', 'time=%d gives loc %.12g scale %.12g, closed form %.12g %.12g' % (
-        tpos, float(dt.kwds['loc']), float(dt.kwds['scale']), ref.loc[tpos], ref.scale[tpos]))
+  tpos = r.choice([r.randrange(0, len(x_an)), -1, 0])
+  rs = r.choice([1.0, 0.25, 3.0, 1e-3])
+  dt = model.causal_cumulative_distribution(time=tpos, rescale=rs)
+  if not (util.close(float(dt.kwds['loc']), rs * ref.loc[tpos], rtol=rt, atol=rs * at_loc) and
+          util.close(float(dt.kwds['scale']), rs * ref.scale[tpos], rtol=rt * 10)):
+    add('time', 'posterior-time-index', 'time=%d, rescale=%g gives loc %.12g scale %.12g, closed form %.12g %.12g' % (
+        tpos, rs, float(dt.kwds['loc']), float(dt.kwds['scale']), rs * ref.loc[tpos], rs * ref.scale[tpos]))
 
   # ---- layout variants
   kind = r.choice(['shuffle', 'split', 'extras'])
